@@ -49,7 +49,7 @@ def PLAN(tier, n):
     product up to MAXCYCLES cycles."""
     if tier == "quick":
         return (1, "all", 3) if n < 5 else (1, "ends", 2)
-    return (2, "all", 3) if n < 6 else (1, "ends", 3)
+    return (2, "all", 3) if n < 6 else (1, "ends", 2)
 
 
 def BOUND(tier):
